@@ -2,7 +2,7 @@ import IofloModel.Model.HttpValet
 import IofloModel.Drv.Proto
 /-! driver for the HTTP message parser model (engine `httpmsg`).
 
-request  `<req|rsp>[!] <METHOD> <max> <op> ...`   (`!` = the unrepaired `except HTTPException` of parseMessage)   op = `f<hex>` (msg.extend + parse) | `p` (parse) | `c` (close) |
+request  `<req|rsp>[!] <METHOD> <max> <op> ...`   (`!` = the unrepaired `except HTTPException` of parseMessage, `~` = parms/trails not reset: before fixes/D29c)   op = `f<hex>` (msg.extend + parse) | `p` (parse) | `c` (close) |
                                                `n` (makeParser + parse)
 reply    the parser fields, ` | ` separated, in the format of harness/props/c29.py `run_impl`
 request  `valet <max> <0|1> <op> ...`          the connection table of a Valet (`1` = repaired parseMessage):
@@ -129,13 +129,14 @@ def step (_ : Unit) (line : String) : Unit × String :=
       | none => ((), "bad-op")
     | none => ((), "bad-op")
   | k :: m :: mx :: ops =>
-    let kind? : Option (Kind × Bool) :=
-      if k = "req" then some (.req, true) else if k = "rsp" then some (.rsp, true)
-      else if k = "req!" then some (.req, false) else if k = "rsp!" then some (.rsp, false) else none
+    let base := String.ofList (k.toList.filter (fun ch => ch ≠ '!' && ch ≠ '~'))
+    let cve := ¬ k.toList.contains '!'
+    let rpt := ¬ k.toList.contains '~'
+    let kind? : Option Kind := if base = "req" then some .req else if base = "rsp" then some .rsp else none
     match kind?, mx.toNat? with
-    | some (kind, cve), some max =>
+    | some kind, some max =>
       let s0 := init kind (m.toList.map Char.toNat) max
-      match runOps { s0 with core := { s0.core with catchVE := cve } } ops with
+      match runOps { s0 with core := { s0.core with catchVE := cve, resetPT := rpt } } ops with
       | some s => ((), render s)
       | none => ((), "bad-op")
     | _, _ => ((), "bad-op")
